@@ -9,7 +9,9 @@ evals = distinct = 0
 d = tempfile.mkdtemp()
 G = [('start: A B*\nA: "a"\nB: "b"\n', {}, ['a', 'abb', 'b']),
      ('start: x\nother: B\nx: A [B]\nA: "a"\nB: "b"\n', {'maybe_placeholders': True}, ['a', 'ab']),
-     ('?start: NAME | "(" start ")"\nNAME: /[a-z]+/\n%ignore " "\n', {'propagate_positions': True}, ['x', '( y )', '('])]
+     ('?start: NAME | "(" start ")"\nNAME: /[a-z]+/\n%ignore " "\n', {'propagate_positions': True}, ['x', '( y )', '(']),
+     ('start: WORD+\nWORD: /[a-z]+/\n%ignore /\\W+/\n', {}, ['ab\ncd\n\nef', 'a b', 'a\n1']),
+     ('start: (W | S)+\nW: /[a-z]+/\nS: /\\D/\n', {'lexer': 'basic'}, ['ab\ncd', 'a\n\nb'])]
 
 
 def shape(x):
@@ -19,7 +21,7 @@ def shape(x):
     if isinstance(x, Tree):
         return (str(x.data), [shape(c) for c in x.children], None if x.meta.empty else (x.meta.start_pos, x.meta.end_pos))
     if isinstance(x, Token):
-        return (x.type, str(x))
+        return (x.type, str(x), x.line, x.column, x.end_line, x.end_column)          # coordinates too: a cached parser counts lines like a fresh one
     return x
 
 
